@@ -1,5 +1,6 @@
 import Req.Driver.Proto
 import Req.Client.Url
+import Req.Driver.WireUtil
 /-! Driver lanes of C01. -/
 namespace Req.Driver.L.C01
 open Req.Proto
@@ -75,7 +76,56 @@ def laneEsc : List String → String
     | _, _ => "bad-op"
   | _ => "bad-op"
 
+def showWErr : Req.H1.WErr → String
+  | .nonAsciiHost => "err:outside"
+  | .invalidHostProxy => "err:hostproxy"
+  | .ctlInURI => "err:ctl"
+  | .contentLengthNilBody => "err:clnil"
+  | .bodyLength => "err:bodylen"
+
+/-- decode the common part of an H1 write case:
+`<method> <rawurl> <host> <hdr> <cl> <hasBody> <body> <reads> <close> <extra> <proxy> <rawQuery>`
+(`rawQuery`: `-` or a hex value assigned to `URL.RawQuery` after parsing). -/
+def decodeWReq : List String → Option Req.H1.WReq
+  | [m, raw, host, hdr, cl, hb, body, reads, close, extra, proxy, rq] => do
+    let m ← decodeHex m
+    let raw ← decodeHex raw
+    let host ← decodeHex host
+    let hdr ← Wire.decodeHdr hdr
+    let cl ← decodeInt cl
+    let hb ← Wire.decodeBool hb
+    let body ← Wire.decodeBody body
+    let reads ← decodeNatList reads
+    let close ← Wire.decodeBool close
+    let extra ← Wire.decodeHdr extra
+    let proxy ← Wire.decodeBool proxy
+    let rq ← if rq == "-" then pure none else (decodeHex rq).map some
+    match Req.Url.parse raw with
+    | .ok u0 =>
+      let u := match rq with
+        | some q => { u0 with rawQuery := q }
+        | none => u0
+      pure { method := m, url := u, host := host, header := hdr, contentLength := cl,
+                      hasBody := hb, body := body, reads := reads, close := close, extra := extra,
+                      usingProxy := proxy }
+    | .error _ => none
+  | _ => none
+
+/-- `c01h1 …`: bytes of `persistConn.writeRequest`. Exact in normal mode; in header-order mode
+(where unlisted keys keep Go's map order) the canonical form of `Wire.showOrdered`. -/
+def laneH1 (args : List String) : String :=
+  match decodeWReq args with
+  | none => "bad-op"
+  | some r =>
+    match Req.H1.serializeH1 r with
+    | .error e => showWErr e
+    | .ok wire =>
+      let order := Req.H1.orderList r.header
+      if order.isEmpty then "ok " ++ Wire.showBlob wire
+      else Wire.showOrdered wire order
+
 def lanes : List (String × (List String → String)) := [
+  ("c01h1", laneH1),
   ("c01url", laneUrl),
   ("c01parse", laneParse),
   ("c01esc", laneEsc)
